@@ -1,5 +1,6 @@
 (* C09 - callAltTranslation equals the definitional alt-translation digest.  Property theorems only. *)
 From Coq Require Import ZArith List Bool Lia.
+From MoPep Require Gen.Expasy Model.ExpasyRef Proofs.ExpasyProofs.
 From MoPep Require Import Model.Base Model.Rule Model.Digest Model.W2F Model.NovelOrf Model.Anno Model.AltTrans
                           Gen.Bio
                           Proofs.W2FProofs Proofs.CleaveSpec Proofs.NovelOrfProofs Proofs.AnnoProofs
@@ -79,3 +80,10 @@ Theorem spec_labels_witness : forall wt water lim r exc sect w2f pool cs q,
   exists c so ws, In c cs /\ header_ok wt water lim r exc c so ws q = true.
 Proof. exact AltTransProofs.spec_labels_witness. Qed.
 Print Assumptions spec_labels_witness.
+
+(* The oracle of this property digests with the rule tables regenerated from expasy_rules.py
+   (coq/Gen/Expasy.v); they must be the ExPASy reference rules (same obligation as in Props/C10.v),
+   otherwise model and implementation would silently follow a changed rule together. *)
+Theorem rules_are_expasy_reference : MoPep.Gen.Expasy.site_rules = MoPep.Model.ExpasyRef.reference_rules.
+Proof. exact MoPep.Proofs.ExpasyProofs.rules_match_reference_proof. Qed.
+Print Assumptions rules_are_expasy_reference.
